@@ -44,6 +44,112 @@ def terminates(stmts) -> bool:
     return False
 
 
+# ---------------------------------------------------------------------------
+# Fall-through conditions.  ft(block) is a boolean expression (over the
+# program's own expressions) that holds when control runs off the end of the
+# block, i.e. when no return / raise / break / continue inside it fired.
+# TRUE / FALSE are the constants; None = not expressible (try blocks with
+# exits, while loops with exits, ...), in which case no fact is produced.
+TRUE, FALSE = 'TRUE', 'FALSE'
+
+
+def _b_not(a):
+    if a is None:
+        return None
+    if a is TRUE:
+        return FALSE
+    if a is FALSE:
+        return TRUE
+    if isinstance(a, ast.UnaryOp) and isinstance(a.op, ast.Not):
+        return a.operand
+    return ast.UnaryOp(op=ast.Not(), operand=a)
+
+
+def _b_and(a, b):
+    if a is FALSE or b is FALSE:
+        return FALSE
+    if a is None or b is None:
+        return None
+    if a is TRUE:
+        return b
+    if b is TRUE:
+        return a
+    return ast.BoolOp(op=ast.And(), values=[a, b])
+
+
+def _b_or(a, b):
+    if a is TRUE or b is TRUE:
+        return TRUE
+    if a is None or b is None:
+        return None
+    if a is FALSE:
+        return b
+    if b is FALSE:
+        return a
+    return ast.BoolOp(op=ast.Or(), values=[a, b])
+
+
+def _has_exit(node, kinds=_TERMINATORS):
+    for n in ast.walk(node):
+        if isinstance(n, kinds):
+            return True
+    return False
+
+
+def _loop_any(target, it, cond):
+    if cond is FALSE:
+        return FALSE
+    if cond is None or cond is TRUE:
+        # exits on the first iteration iff the iterable is non-empty
+        return None
+    gen = ast.GeneratorExp(elt=cond, generators=[ast.comprehension(
+        target=copy.deepcopy(target), iter=it, ifs=[], is_async=0)])
+    return ast.Call(func=ast.Name(id='any', ctx=ast.Load()), args=[gen],
+                    keywords=[])
+
+
+def ft_stmt(s, loop_level=True):
+    """Condition under which control falls through statement s.
+    loop_level: break/continue count as exits (they leave the block)."""
+    if isinstance(s, (ast.Return, ast.Raise)):
+        return FALSE
+    if isinstance(s, (ast.Break, ast.Continue)):
+        return FALSE if loop_level else TRUE
+    if isinstance(s, ast.If):
+        fb = ft_block(s.body, loop_level)
+        fo = ft_block(s.orelse, loop_level)
+        if fb is TRUE and fo is TRUE:
+            return TRUE
+        if fb is FALSE and fo is FALSE:
+            return FALSE
+        return _b_or(_b_and(s.test, fb), _b_and(_b_not(s.test), fo))
+    if isinstance(s, (ast.With, ast.AsyncWith)):
+        return ft_block(s.body, loop_level)
+    if isinstance(s, (ast.For, ast.AsyncFor)):
+        if not _has_exit(s, (ast.Return, ast.Raise)):
+            return TRUE
+        if s.orelse or _has_exit(s, (ast.Break,)):
+            return None
+        # leaves the function in some iteration <=> not falls-through
+        leave = _b_not(ft_block(s.body, loop_level=False))
+        if any(isinstance(n, ast.Continue) for n in ast.walk(s)):
+            return None
+        return _b_not(_loop_any(s.target, s.iter, leave))
+    if isinstance(s, (ast.While, ast.Try, ast.Match)) or (
+            hasattr(ast, 'TryStar') and isinstance(s, ast.TryStar)):
+        return TRUE if not _has_exit(s) else None
+    return TRUE
+
+
+def ft_block(stmts, loop_level=True):
+    c = TRUE
+    for s in stmts:
+        c = _b_and(c, ft_stmt(s, loop_level))
+        if c is FALSE:
+            break
+    return c
+
+
 def _blocks_of(stmt):
     for name in ('body', 'orelse', 'finalbody'):
         b = getattr(stmt, name, None)
@@ -59,6 +165,17 @@ def _blocks_of(stmt):
 
 def _names(node):
     return {n.id for n in ast.walk(node) if isinstance(n, ast.Name)}
+
+
+def _free_names(node):
+    """Names read by an expression, without those its own comprehensions
+    bind (a synthetic `any(c for x in S)` does not depend on an outer x)."""
+    bound = set()
+    for n in ast.walk(node):
+        if isinstance(n, ast.comprehension):
+            bound |= {t.id for t in ast.walk(n.target)
+                      if isinstance(t, ast.Name)}
+    return _names(node) - bound
 
 
 def _stores_between(fnode, lo, hi, skip_stmt=None, idx=None, node=None):
@@ -163,7 +280,7 @@ def _single_assignment(fnode, name):
     return None
 
 
-def raw_conditions(idx: Index, node, stop=None):
+def raw_conditions(idx: Index, node, stop=None, early_composite=True):
     """[(test_node, polarity, test_line)] dominating node in its function."""
     out = []
     f = idx.owner(node)
@@ -241,8 +358,23 @@ def raw_conditions(idx: Index, node, stop=None):
                                 out.append((s.test, False, s.test.lineno))
                             elif te and not tb and s.orelse:
                                 out.append((s.test, True, s.test.lineno))
+                            elif not early_composite:
+                                pass
+                            elif _has_exit(s):
+                                # nested / partial exits: the fall-through
+                                # condition as one composite fact
+                                ft = ft_stmt(s)
+                                if ft not in (None, TRUE, FALSE):
+                                    out.append((ft, True, s.lineno))
                         elif isinstance(s, ast.Assert):
                             out.append((s.test, True, s.test.lineno))
+                        elif early_composite and isinstance(
+                                s, (ast.For, ast.AsyncFor, ast.With,
+                                    ast.AsyncWith)) and _has_exit(
+                                    s, (ast.Return, ast.Raise)):
+                            ft = ft_stmt(s)
+                            if ft not in (None, TRUE, FALSE):
+                                out.append((ft, True, s.lineno))
                     break
         if isinstance(par, ast.ExceptHandler):
             pass
@@ -261,11 +393,11 @@ def facts(idx: Index, node, stop=None, at_entry=False) -> list:
             lo = max(getattr(test, 'end_lineno', line) or line, line)
             killed = _stores_between(fnode, lo, nline, idx=idx, node=node)
             # names assigned on the node's own line do not invalidate
-            if killed & _names(test):
+            if killed & _free_names(test):
                 # keep conjuncts that do not mention re-assigned names
                 parts = flatten([nf(test, pol)])
                 for p in parts:
-                    if p[0] == 'atom' and not (killed & _names(p[1])):
+                    if p[0] == 'atom' and not (killed & _free_names(p[1])):
                         res.append(p)
                 continue
         res.append(nf(test, pol))
@@ -285,6 +417,22 @@ def expand_helpers(idx: Index, fact_list, resolve_helper, depth=2):
         return out
     for f in fact_list:
         if f[0] != 'atom' or not isinstance(f[1], ast.Call):
+            continue
+        # `any(C for x in S [if D])` holds  =>  for some x of S, C (and D):
+        # the same existential fact an early exit inside `for x in S:
+        # if C:` provides, so both spellings discharge the same guards
+        call = f[1]
+        if f[2] and isinstance(call.func, ast.Name) and call.func.id == 'any' \
+                and len(call.args) == 1 and not call.keywords and isinstance(
+                    call.args[0], (ast.GeneratorExp, ast.ListComp)):
+            g = call.args[0]
+            conds = [i for gen in g.generators for i in gen.ifs]
+            bound = {ast.unparse(gen.target) for gen in g.generators}
+            if ast.unparse(g.elt) not in bound:
+                conds.append(g.elt)
+            for cnd in conds:
+                out.extend(expand_helpers(
+                    idx, flatten([nf(cnd, True)]), resolve_helper, depth - 1))
             continue
         hf = resolve_helper(f[1])
         if hf is None:
